@@ -74,6 +74,13 @@ pub struct PictureServer {
     pub embedded: PicSource,
     pub cover: PicSource,
     pub limit: usize,
+    /// the i-th data reply for a uri carries at most pattern[i % len] bytes (empty: always `limit`);
+    /// a server may always send less than its limit
+    #[serde(default)]
+    pub pattern: Vec<usize>,
+    /// the n-th (n >= 1) request to the command that yields the data is answered with this ACK code
+    #[serde(default)]
+    pub fail_at: Option<(usize, u64)>,
 }
 
 #[derive(Debug, Clone, Serialize, Deserialize, PartialEq)]
@@ -213,6 +220,7 @@ pub struct Server {
     pub verdicts: Vec<Verdict>,
     pub password: Option<Password>,
     password_done: bool,
+    picture_requests: HashMap<(String, String), usize>,
 }
 
 // ---------------------------------------------------------------------------------------------
@@ -631,7 +639,16 @@ impl Shared {
                     PicSource::Present(pic) => {
                         let size = pic.bytes.len();
                         let off = (offset as usize).min(size);
-                        let n = (size - off).min(ps.limit.max(1));
+                        let counter = self.server.picture_requests.entry((name.clone(), s(1).unwrap_or_default())).or_insert(0);
+                        let i = *counter;
+                        *counter += 1;
+                        if let Some((n, code)) = ps.fail_at {
+                            if n >= 1 && n == i {
+                                return Err(ack(code, &name, "No such file"));
+                            }
+                        }
+                        let cap = if ps.pattern.is_empty() { usize::MAX } else { ps.pattern[i % ps.pattern.len()].max(1) };
+                        let n = (size - off).min(ps.limit.max(1)).min(cap);
                         let mut out = format!("size: {size}\n").into_bytes();
                         if let (true, Some(m)) = (name == "readpicture", &pic.mime) {
                             out.extend_from_slice(format!("type: {m}\n").as_bytes());
@@ -788,6 +805,7 @@ pub fn new_io(script: &Script, password: Option<Password>) -> (SimIo, Handle) {
             verdicts: Vec::new(),
             password,
             password_done: false,
+            picture_requests: HashMap::new(),
         },
         now_ms: 0,
         start: None,
